@@ -124,6 +124,8 @@ theorem C07_seeds_declared (a : Analysis) (n : Str) (hs : n ∈ seeds a) (hd : (
 
 /-- K07b witness: a comma-bearing ok-type yields junk names instead of the real ones (kernel-evaluated) -/
 theorem K07b_witness : harvest 50 cl!"Result<HashMap<String, Foo>, String>" = [cl!"Foo>, String"] := by decide +kernel
+/-- K07e witness: a type name that does not start with an upper-case letter is never harvested -/
+theorem K07e_witness : harvest 30 cl!"Vec<snake_type>" = [] ∧ harvest 30 cl!"Vec<SnakeType>" = [cl!"SnakeType"] := by decide +kernel
 /-- K07c witness: the derive test is a substring test -/
 theorem K07c_witness :
     shouldInclude [{ path := [cl!"derive"], isList := true, tokens := cl!"MySerializeLike", metaTokens := cl!"derive (MySerializeLike)" }] = true ∧
